@@ -22,13 +22,13 @@ BASE = dict(
     TopUps=S(6), MaxSteps=5, MaxSess=1, Limit=100, Pads=S(0), CreateConts=S(0),
     TwoEntries=False, BadRefs=False, WellBehaved=False, AskAfterFinal=True, KnownDebitNoFui=True, Lrsn0=0, Recharges=True, Traffic=S(), SinkAnswers=S(204), AddrKinds=S("none"), ContShapes=S("single"), ChidModes=S(0), UpdNfcs="{FALSE}",
     Events=False, EvTypes=S(""), Faults=S("none"), BadCreates=S(),
-    BulkEvents=S(), OpCfgs="{[vl |-> 0, vlp |-> 0, qvt |-> 0, th |-> 512]}",
+    BulkEvents=S(), OpCfgs="{[vl |-> 0, vlp |-> 0, qvt |-> 0, th |-> 512, mqcap |-> 0]}",
 )
 
 # operator configurations (volumeLimit, volumeLimitPDU, quotaValidityTime, volumeThresholdRate * 1024)
-OPCFGS = ("{[vl |-> 0, vlp |-> 0, qvt |-> 0, th |-> 512], [vl |-> 7, vlp |-> 0, qvt |-> 0, th |-> 1024], "
-          "[vl |-> 0, vlp |-> 9, qvt |-> 0, th |-> 0], [vl |-> 0, vlp |-> 0, qvt |-> 11, th |-> 256], "
-          "[vl |-> 7, vlp |-> 9, qvt |-> 11, th |-> 768]}")
+OPCFGS = ("{[vl |-> 0, vlp |-> 0, qvt |-> 0, th |-> 512, mqcap |-> 0], [vl |-> 7, vlp |-> 0, qvt |-> 0, th |-> 1024, mqcap |-> 0], "
+          "[vl |-> 0, vlp |-> 9, qvt |-> 0, th |-> 0, mqcap |-> 0], [vl |-> 0, vlp |-> 0, qvt |-> 11, th |-> 256, mqcap |-> 0], "
+          "[vl |-> 7, vlp |-> 9, qvt |-> 11, th |-> 768, mqcap |-> 0]}")
 # slices that do not explore the configuration themselves are replayed under one of these, chosen from the behaviour's id
 # (the judge applies the model under the configuration it observes)
 CFG_POOL = [dict(vl=0, vlp=0, qvt=0, th=512), dict(vl=0, vlp=0, qvt=0, th=512), dict(vl=5, vlp=0, qvt=0, th=512),
@@ -161,6 +161,11 @@ def cfg(pid, tier):
                Recharges=False, **dict(wb, AcctChoices=S((9, 2), (10, 1)), Vols=S(0, 4), Reqs=S(4))),
             sl("opcfg", 400 if q else 4000, OpCfgs=OPCFGS, MaxSteps=4 if q else 5, TopUps=S(), TrigSets=S("none", "final"),
                Recharges=False, Modes=S("on", "off"), **dict(wb, AcctChoices=S((9, 2), (3, 1)), Vols=S(0, 4), Reqs=S(4))),
+            # money in units of 2^20: a request of 4096 units prices at 2^32 (4095: just below), beyond the 32-bit amounts of
+            # the rating interface
+            dict(sl("bigmoney", 300 if q else 3000, MaxSteps=4 if q else 5, TopUps=S(), TrigSets=S("none", "final"), Recharges=False,
+                    OpCfgs="{[vl |-> 0, vlp |-> 0, qvt |-> 0, th |-> 512, mqcap |-> 4096]}",
+                    **dict(wb, AcctChoices=S((6000, 1), (9000, 2)), Vols=S(0, 4095, 4096), Reqs=S(4095, 4096))), scale=1 << 20),
         ]
     elif pid == "C12":
         base = dict(BadRefs=True, Reqs=S(4), Vols=S(3), TopUps=S(), AcctChoices=S((9, 1)), Limit=6,
@@ -233,15 +238,15 @@ def cfg(pid, tier):
     return slices, extra
 
 
-def to_behaviour(hist, bid, padmap):
+def to_behaviour(hist, bid, padmap, scale=1):
     setup = hist[0]
     # how the consumer numbers its invocations is a presentation parameter of the replay (the model does not depend on it):
     # one counter per behaviour, or -- every second behaviour -- one counter per session (TS 32.290)
     import zlib
-    cfg = setup.get("cfg") or CFG_POOL[0]
+    cfg = {k: v for k, v in (setup.get("cfg") or CFG_POOL[0]).items() if k != "mqcap"}
     if cfg == CFG_POOL[0]:
         cfg = CFG_POOL[(zlib.crc32(bid.encode()) // 2) % len(CFG_POOL)]
-    b = dict(id=bid, cfg=cfg, isn="session" if zlib.crc32(bid.encode()) % 2 else "", lrsn0=setup["lrsn0"], wb=setup["wb"], ues=sorted(setup["ues"]),
+    b = dict(id=bid, cfg=cfg, scale=scale, isn="session" if zlib.crc32(bid.encode()) % 2 else "", lrsn0=setup["lrsn0"], wb=setup["wb"], ues=sorted(setup["ues"]),
              accts=sorted(setup["accts"], key=lambda a: (a["u"], a["rg"])), steps=[])
     for st in hist[1:]:
         st = {k: x for k, x in st.items() if k != "sig"}
@@ -275,7 +280,7 @@ def check(pid, tier, replay=None):
     slices, extra = cfg(pid, tier)
     limit = max(x["consts"]["Limit"] for x in slices)
     for x in slices:
-        if pid in ("C01", "C06"):
+        if pid in ("C01", "C06") and not x.get("scale"):   # (the abstract machine's steps are enumerated over 0..8 units)
             # every step of the slice is, per account, a step of the abstract machine AcctInd (refinement, checked by TLC);
             # AcctInd's Conservation is proved inductive by Apalache (./vf extra ind; phase of the thorough tier)
             x["properties"] = ["RefinesAcct"]
@@ -285,7 +290,7 @@ def check(pid, tier, replay=None):
         x["padmap"] = lambda p, lim=lim: realpad(lim, p)
     return pipe.standard_check(
         pid, tier, family="seq", base_module="ChfSeqMC", consts=slices[0]["consts"], invariants=INV[pid], n_beh=None,
-        to_behaviour=None, slices=slices, slice_behaviour=lambda x, h, bid: to_behaviour(h, bid, x["padmap"]),
+        to_behaviour=None, slices=slices, slice_behaviour=lambda x, h, bid: to_behaviour(h, bid, x["padmap"], x.get("scale", 1)),
         harness_mode="seq", trace_module="ChfSeqTrace", trace_consts={k: core.tla_bool(v) for k, v in DEV.items()},
         clauses=CLAUSES[pid], extra=extra, replay=replay, extra_phase=_phase(pid, tier),
         judge_boundary='"action":"reset"',
